@@ -19,7 +19,7 @@ def check(F, rep):
         for b, i, s in f.stmts():
             if s["k"] == "a" and s["rv"]["k"] in ("use", "cast") and s["rv"]["o"]["k"] == "const" and s["rv"]["o"].get("static") == STATIC:
                 users.append((f, b, s["lhs"]["l"]))
-    rep.floor("atomic-pattern", "references to LAST_TIMESTAMP", len(users), 2)
+    rep.floor("atomic-pattern", "references to LAST_TIMESTAMP", len(users), 1)
     ops = []
     for f, b, l in users:
         rep.fn(f)
@@ -36,6 +36,9 @@ def check(F, rep):
     rmw = find_calls(now, regex=RMW_OK)
     loads = find_calls(now, regex=r"Atomic(U64)?::load$")
     rep.exact("atomic-pattern", "read-modify-write operations in Timestamp::now", len(rmw), 1)
+    if rmw and call_matches(rmw[0][1], r"::fetch_update$"):
+        fetch_update_idiom(F, rep, now, rmw[0])
+        return
     rep.exact("atomic-pattern", "plain loads in Timestamp::now", len(loads), 1)
     if not rmw:
         return
@@ -99,3 +102,85 @@ def check(F, rep):
 def _re_rmw(n):
     import re
     return re.search(RMW_OK, n) is not None
+
+
+def fetch_update_idiom(F, rep, now, rmw):
+    """`LAST.fetch_update(o, o, |last| Some(max(clock, last + 1)))` and the returned timestamp
+    is the same function of the previous value fetch_update reports."""
+    rb, rt = rmw
+    du = defuse(now)
+    # the update closure
+    l = op_base(rt["args"][3])
+    m = re.search(r"closure@[^:]+:(\d+):", str(now.locals[l])) if l is not None else None
+    cl = [c for c in F.tree(now) if c is not now and c.kind == "Closure" and m and c.line == int(m.group(1))]
+    okc, why = False, "update closure not found"
+
+    def plus_one_of(g, o, is_base):
+        ll = op_base(o)
+        if ll is None:
+            return False
+        adds = [x for x in defuse(g).origin_facts(ll, kinds=("bin",)) if x[4]["op"] in ("Add", "AddWithOverflow")]
+        for x in adds:
+            a, b = x[4]["a"], x[4]["b"]
+            for u, w in ((a, b), (b, a)):
+                if w["k"] == "const" and str(w.get("v")).replace("const ", "").startswith("1_") and u["k"] != "const" and is_base(copy_sources(g, op_base(u))):
+                    return True
+        return False
+    clock_src = None
+    for c in cl:
+        rep.fn(c)
+        rets = [(b, i, rv) for b, i, rv in returns_of(c) if i is not None]
+        mx = [(b, t) for b, t in c.calls() if call_matches(t, r"^core::cmp::(Ord::max|max)$")]
+        if len(rets) == 1 and rets[0][2]["k"] == "agg" and rets[0][2].get("variant") == "Some" and len(mx) == 1:
+            val = copy_sources(c, op_base(rets[0][2]["ops"][0]))
+            from_max = bool(val) and all(x[0] == "call" and re.search(r"core::cmp::(Ord::max|max)$", x[1]) for x in val)
+            a0, a1 = mx[0][1]["args"]
+            is_param = lambda x: x == {("arg", 2, ())}
+            p0, p1 = plus_one_of(c, a0, is_param), plus_one_of(c, a1, is_param)
+            other = a1 if p0 else a0
+            osrc = copy_sources(c, op_base(other)) if op_base(other) is not None else set()
+            okc = from_max and (p0 or p1) and bool(osrc) and all(x[0] == "arg" and x[1] == 1 for x in osrc)
+            why = "closure returns Some(max(<captured clock>, last + 1)): %s" % okc
+            # what is captured
+            cl_locals = {l}
+            for _ in range(4):
+                for b, i, st in now.stmts():
+                    if st["k"] == "a" and st["lhs"].get("l") in cl_locals and not st["lhs"].get("p") and st["rv"]["k"] == "use" and st["rv"]["o"]["k"] in ("copy", "move") and not st["rv"]["o"]["p"].get("p"):
+                        cl_locals.add(st["rv"]["o"]["p"]["l"])
+            caps = [st["rv"]["ops"] for b, i, st in now.stmts() if st["k"] == "a" and st["lhs"].get("l") in cl_locals and not st["lhs"].get("p") and st["rv"]["k"] == "agg"]
+            if caps and caps[0]:
+                clock_src = copy_sources(now, op_base(caps[0][0]))
+    rep.ob("strictly-greater", okc, site(now, rb), "the value installed by fetch_update exceeds the value it replaces: %s" % why, skey(F, now, "next-gt-expected"))
+    # the returned timestamp
+    sites = [(b, i, rv) for b, i, rv in aggregates_in(now, now.reachable(0), TS)]
+    rep.exact("returns", "Timestamp constructions in now()", len(sites), 1)
+    for b, i, rv in sites:
+        dc = def_call(now, op_base(rv["ops"][0])) if op_base(rv["ops"][0]) is not None else None
+        ok = dc is not None and call_matches(dc[1], r"^core::cmp::(Ord::max|max)$")
+        if ok:
+            a0, a1 = dc[1]["args"]
+            is_prev = lambda x: bool(x) and all(y[0] == "call" and re.search(r"fetch_update$", y[1]) for y in x)
+            tr = ("core::result::Result::expect", "core::result::Result::unwrap", "core::result::Result::unwrap_or_else", "core::result::Result::unwrap_or")
+            pl0 = plus_one_of_prev(now, a0, is_prev, tr)
+            pl1 = plus_one_of_prev(now, a1, is_prev, tr)
+            other = a1 if pl0 else a0
+            osrc = copy_sources(now, op_base(other)) if op_base(other) is not None else set()
+            ok = (pl0 or pl1) and clock_src is not None and osrc == clock_src and f_dominates(now, rb, b)
+        rep.ob("returns", ok, site(now, b), "the returned timestamp is max(clock, previous + 1) of the previous value fetch_update reported - the very value the closure installed", skey(F, now, "return-installed"))
+
+
+def f_dominates(f, a, b):
+    return f.dominates(a, b)
+
+
+def plus_one_of_prev(f, o, is_base, transparent):
+    ll = op_base(o)
+    if ll is None:
+        return False
+    adds = [x for x in defuse(f).origin_facts(ll, kinds=("bin",)) if x[4]["op"] in ("Add", "AddWithOverflow")]
+    for x in adds:
+        a, b = x[4]["a"], x[4]["b"]
+        for u, w in ((a, b), (b, a)):
+            if w["k"] == "const" and str(w.get("v")).replace("const ", "").startswith("1_") and u["k"] != "const" and is_base(copy_sources(f, op_base(u), transparent=transparent)):
+                return True
+    return False
